@@ -862,7 +862,7 @@ fn main() {
          lowercase x normalise x 5 tokenisers (default regex, [a-zA-Z]+, \\S+, fn split(' '), fn split(';')) x 6 n-gram ranges. \
          B filtering: docs = all sequences of length 0..3 over {aa,bb,cc}; corpora = the empty corpus, all ordered tuples of 1..2 docs, tuples of 3 (quick: docs of length<=2), \
          tuples of 4 over length<=1 docs, thorough also over {aa,bb} length<=2 docs, tokenised by a split_whitespace function; the same grid with the default regex over a smaller corpus list \
-         (quick: singles, pairs of length<=2 docs, triples of length<=1 docs; thorough: singles, pairs, triples of length<=2 docs, 4-tuples of length<=1 docs); settings = 6 n-gram ranges x stop words {none,{aa},{aa bb}} x all 15 \
+         (singles, pairs (quick: of length<=2 docs), triples of length<=1 docs, thorough also 4-tuples of length<=1 docs); settings = 6 n-gram ranges x stop words {none,{aa},{aa bb}} x all 15 \
          windows min<=max over {0,.25,.5,.75,1} x caps {None,1,2} (thorough also 3). C tf-idf: 3 idf methods x n-gram {(1,1),(1,2)} x windows {(0,1),(.5,1)} x training corpora x \
          all unseen corpora of 1..2 pool documents (+ fixed 3- and 4-document corpora). D fixed vocabularies: all word sequences of length 0..3 over 6 words (duplicates included) x \
          lowercase x normalise x 5 tokenisers x 4 n-gram ranges, transformed on the family-A pool and on the empty corpus (tf-idf, 3 methods, on the sub-grid lowercase+normalise, (1,2), {default, fn split(' ')}). E compute_idf on n<=12, 0<=df<=n. \
@@ -937,7 +937,7 @@ fn main() {
     corpora_br.push(vec![]);
     corpora_br.extend(tuples(&docs_b3, 1));
     corpora_br.extend(tuples(if thorough { &docs_b3 } else { &docs_b2 }, 2));
-    corpora_br.extend(tuples(if thorough { &docs_b2 } else { &docs_b1 }, 3));
+    corpora_br.extend(tuples(&docs_b1, 3));
     if thorough {
         corpora_br.extend(tuples(&docs_b1, 4));
     }
